@@ -211,6 +211,8 @@ func runWorkload(sh shape, N int, res *result) {
 							rec.TargetValue = hx.Hash(fmt.Sprint("p", id), hs)
 						case "symref":
 							rec.Target = "refs/heads/main"
+						case "deletion":
+							// tombstones only: a compaction that includes the oldest table cancels out entirely
 						}
 						if err := wr.AddRef(&rec); err != nil {
 							return err
@@ -263,7 +265,7 @@ func allShapes() []shape {
 	var out []shape
 	for _, cfg := range []string{"default", "unaligned", "bs256", "s256"} {
 		for _, nl := range []int{12, 40} {
-			for _, k := range []string{"value", "symref", "peeled"} {
+			for _, k := range []string{"value", "symref", "peeled", "deletion"} {
 				for _, refs := range []int{1, 3, 20} {
 					for _, fresh := range []bool{true, false} {
 						out = append(out, shape{nl, k, refs, fresh, cfg})
